@@ -1,4 +1,5 @@
 import NixModel.Pure.NdConv
+import NixModel.Py.Slice
 
 /-!
 # Vocabulary of the compiled nixio array code (C01)
@@ -55,6 +56,11 @@ def IndexArg.items : IndexArg → List IxE
 
 /-- `slice(None, None, None)` / `:` -/
 def fullSlice : IndexArg := .one (.ix (.slice none none none))
+
+/-- `slc if slc is not None else slice(None)` -/
+def IndexArg.orFull : IndexArg → IndexArg
+  | .none => fullSlice
+  | s => s
 
 def fullSel (n : Nat) : AxisSel := ⟨0, 1, n, false⟩
 
@@ -123,6 +129,58 @@ def npDtypeOfStr (s : String) : Option DTypeArg :=
 
 /-- `data is None` for an array argument -/
 def arrIsNone (_ : Arr) : Bool := false
+
+/-! ## numpy basic indexing on a probe array (`H5DataSet._selected_count`) -/
+
+/-- one index item against an axis of extent `n` in NumPy: the number of selected coordinates, `none` when NumPy
+raises (integer out of range, slice step 0); negative steps are fine for NumPy -/
+def npAxisCount (n : Nat) : Ix → Option Nat
+  | .int i => if 0 ≤ wrapIndex n i ∧ wrapIndex n i < (n : Int) then some 1 else none
+  | .slice a b c =>
+    match (Nix.Py.PySlice.mk a b c).indices n with
+    | .ok (lo, hi, st) => some (Nix.Py.rangeLen lo hi st)
+    | .error _ => none
+
+/-- size of `probe[items]` for plain items (missing trailing items are full slices; too many: IndexError) -/
+def npCountPlain : List Nat → List Ix → Option Nat
+  | [], [] => some 1
+  | [], _ :: _ => none
+  | n :: ns, [] => (npCountPlain ns []).map (n * ·)
+  | n :: ns, i :: is =>
+    match npAxisCount n i, npCountPlain ns is with
+    | some a, some b => some (a * b)
+    | _, _ => none
+
+def ixePlain? : IxE → Option Ix
+  | .ix i => some i
+  | .ellipsis => none
+
+/-- NumPy's expansion of `Ellipsis`: at most one, standing for the axes the other items do not cover -/
+def npExpand (rank : Nat) (items : List IxE) : Option (List Ix) :=
+  let plain := items.filterMap ixePlain?
+  let nE := items.length - plain.length
+  if nE > 1 then none
+  else if plain.length > rank then none
+  else if nE = 0 then some plain
+  else
+    let pre := (items.takeWhile fun i => i != .ellipsis).filterMap ixePlain?
+    let post := (items.dropWhile fun i => i != .ellipsis).filterMap ixePlain?
+    some (pre ++ List.replicate (rank - plain.length) (Ix.slice none none none) ++ post)
+
+/-- `H5DataSet._selected_count(slc)`: `probe[slice(None) if slc is None else slc].size` on a NumPy array of the
+dataset's shape, `None` when NumPy raises -/
+def h5SelectedCount (A : DArr) (slc : IndexArg) : Option Nat :=
+  match slc with
+  | .none => npCountPlain A.arr.shape [Ix.slice none none none]
+  | s => (npExpand A.arr.shape.length s.items).bind (npCountPlain A.arr.shape)
+
+/-- truthiness of an `int or None` -/
+def optTruthy : Option Nat → Bool
+  | some (n + 1) => true
+  | _ => false
+
+/-- `H5DataSet._is_empty(data)` for a NumPy array: `data.size == 0` -/
+def arrIsEmpty (d : Arr) : Bool := Nix.Nd.sizeOf d.a.shape == 0
 
 /-! ## storage stand-in: h5py `Dataset` -/
 
